@@ -183,7 +183,27 @@ pub fn bounds(ctx: &Ctx) {
     // packet capacity (hooked): with 1, 2 or 3 points per packet the extreme value is also carried by
     // a point that completes a packet
     let cap = [None, Some(1), Some(2), Some(3)][ctx.choose("packet-capacity", 4)];
-    let spec = CloudSpec { meta, proto: proto.clone(), points: points.clone(), cap, abandon: false };
+    // a call the writer must refuse (the last value has the wrong type) whose other values are new
+    // extremes of every attribute: it must leave no trace in the bounds
+    let rejects = match ctx.choose("refused-call", 4) {
+        0 => Vec::new(),
+        k => {
+            let mut v: Vec<Val> = proto
+                .iter()
+                .map(|r| match &r.ty {
+                    Ty::F32 { max, .. } => Val::F32(max.unwrap_or(1.0e30)),
+                    Ty::F64 { max, .. } => Val::F64(max.unwrap_or(1.0e300)),
+                    Ty::Int { max, .. } => Val::Int(*max),
+                    Ty::Scaled { max, .. } => Val::Scaled(*max),
+                })
+                .collect();
+            if let Some(last) = v.last_mut() {
+                *last = if matches!(last, Val::F32(_) | Val::F64(_)) { Val::Int(0) } else { Val::F64(0.5) };
+            }
+            vec![([0, points.len() / 2, points.len()][k - 1], v)]
+        }
+    };
+    let spec = CloudSpec { meta, proto: proto.clone(), points: points.clone(), cap, abandon: false, rejects };
     let p = Program { guid: "g".into(), ops: vec![Op::Cloud(spec)], ..Default::default() };
     ctx.describe(|| describe(&p));
     let Some(w) = write_valid(ctx, &p, P) else { return };
